@@ -61,6 +61,17 @@ CLAIMED = {
             'attributes are read, not DER: rasn\'s own explicit tagging of CHOICE/open types is assumed (their explicitness is not compared); '
             'IMPLICIT on a CHOICE/open type is excluded as illegal per X.680',
             'Coq proof (finite closure by vm_compute + mutual induction) + differential correspondence'),
+    'C15': ('proof',
+            'Theorems: no annotation for string types that are not known-multiplier; for one FROM whose operands (strings of any '
+            'length, character ranges) are joined by `|`, the sorted annotation denotes exactly the permitted characters, and single '
+            'characters / range ends lie in the base alphabet; sorting is irrelevant; the operator defect is a machine-checked refutation. '
+            'Character tables and the known-multiplier test are re-translated from the source (T03) and compared with the implementation; '
+            'hand model of try_new/from_subtype_elem/finalize/format_alphabet_annotations (over the C04 fold in alphabet mode) tied by '
+            'correspondence on random FROM / SIZE^FROM / mixed sets; Spec oracle compares denoted sets character by character',
+            '§6 C15',
+            'four known findings (operators inside FROM, collation order of Numeric/Printable ranges, serial FROMs, FROM inside outer set '
+            'operations); contained subtypes not modelled; cstrings that are also tstrings are lexed as TIME values (kept out of the sweep, C07)',
+            'Coq proof (induction over set operations) + translated tables + differential correspondence'),
 }
 NOT_YET = 'check not built yet in this session (planned, see DESIGN.md §6); not claimed until its proof and correspondence run'
 
